@@ -437,6 +437,9 @@ def load_findings():
         return json.load(f)['findings']
 
 
+PENDING_RAISES = []
+
+
 class Verdict:
     """Collects violations of one property, matches them against open known findings,
     writes replay files, prints the protocol lines and decides the exit code."""
@@ -462,6 +465,12 @@ class Verdict:
 
     def finish(self):
         """returns (exit_code, n_unlisted, n_known)"""
+        # sessions of the code under test that died with an exception (recorded by the session drivers): the stream was cut
+        # short / the state was not saved - a violation of whichever property the running check decides
+        while PENDING_RAISES:
+            w = PENDING_RAISES.pop(0)
+            self.violation(dict(w, clause='code_under_test_raised', check='session raised'),
+                           'the session raised %s; %s' % (w.get('error'), short({k: v for k, v in w.items() if k != 'error'}, 200)))
         known = {}
         unlisted = []
         for w, desc in self.violations:
